@@ -14,7 +14,7 @@
      array: struct arr_type {el_type, size node with attr expr {const_p, c.i_val}},
      enum: N_ENUM node with attr = struct enum_type, pointer: ptr_type = a void type;
      c2m_ctx zeroed except check_ctx (curr_scope = NULL: not inside the aggregate being defined).
-   Symbolic: everything in the abstract description (sv_agg) the graph is built from.
+   Symbolic: the abstract description (sv_agg) the graph is built from, within the concrete shape below.
    Oracle: ref/sysv_ref.h (psABI + gcc bit-field rule; validated against gcc by ref/sysv_ref_selftest.py).
 
    The SHAPE of the declaration is concrete per obligation (symbolic execution must see where the recursion
@@ -27,9 +27,11 @@
    -DH_TOP=k        0 struct, 1 union (concrete: a symbolic struct/union mode is a symbolic type->mode)
    -DH_FEAT=mask    1: members of arithmetic/enum type may be bit-fields (symbolic: whether, width 0..bits,
                     named or not)   2: the first member of a nested/anonymous aggregate is an array
-   -DH_NSUB=n     max members of a nested aggregate (default 2)
-   -DH_MODE=m     0 layout; 1 passing (classification etc.), proved for the declarations whose layout agrees
-   -DH_MAXSIZE=b  bound on sizeof of the outer aggregate (default 64) */
+   -DH_KCLS, -DH_KSUB, -DH_EXCL: see below
+   -DH_NSUB=n       number of members of a nested/anonymous aggregate (default 2; arithmetic types, bit-fields allowed)
+   -DH_MODE=m       0 layout; 1 passing (classification etc.), proved for the declarations whose layout agrees
+   -DH_MAXSIZE=b    bound on sizeof of the outer aggregate (default 64)
+   -DH_W_*          which reachability witnesses exist for the shape (computed by props/C08.py) */
 #include "h.h"
 #if H_CBMC
 /* MODELLING STEP (CBMC build only; the native replay uses the real unions): the unions of the c2mir TU are
